@@ -1,19 +1,29 @@
 #!/bin/sh
-# Offline build of the framework: full .vo build of the Coq development, extraction + OCaml model drivers.
+# Offline build of the framework: full .vo build of the Coq development needed by the claimed
+# properties (props/*.json), extraction + OCaml model drivers of their components.
 set -e
 cd "$(dirname "$0")"
 python3 - <<'PY'
-import sys, os
+import sys, os, json, glob
 sys.path.insert(0, 'lib')
 import core
 core.coq_prepare()
-ok, log = core.coq_make(core.coq_all_targets(), timeout=3000)
+targets, comps = [], []
+for f in sorted(glob.glob('props/*.json')):
+    s = json.load(open(f))
+    if not s.get('claimed'):
+        continue
+    targets.append(s['properties_file'][:-2] + '.vo')
+    for c in s['components']:
+        if c not in comps:
+            comps.append(c)
+targets += ['Common/Lockset.vo', 'Common/Enum.vo']
+ok, log = core.coq_make(targets, timeout=3000)
 print(log[-3000:])
 if not ok:
     sys.exit('coq build failed')
-import glob
-for f in sorted(glob.glob('lib/comp_*.py')):
-    comp = core.component(os.path.basename(f)[5:-3])
+for c in comps:
+    comp = core.component(c)
     exe, log = core.build_model_driver(comp)
     print(comp.NAME, 'model driver:', exe)
     if exe is None:
